@@ -14,6 +14,10 @@ import Proofs.TreeHist
 import Proofs.TreeGetVar
 import Proofs.TreeChildren
 import Proofs.TreeLookup
+import Proofs.TreeAudit
+import Proofs.TreeNames
+import Proofs.TreeOrder
+import Proofs.TreeFlatHeap
 import Proofs.LibSrc
 namespace Pydap.C12
 open Pydap.Quote Pydap.Tree
@@ -82,11 +86,30 @@ theorem C12_setitem_preserves (o item r : Obj) (key : Str) (ho : invObj o = true
   have := setItem_inv o item r key ((invO_iff o).2 ho) ((invO_iff item).2 hi) hk h
   exact ⟨(invO_iff r).1 this.1, this.2⟩
 
-/-- **`del container[key]`** keeps the invariant and un-lists the key -/
+/-- **`del container[key]`** keeps the invariant and un-lists the key; every other visible key and every other
+    `_dict` key keeps its place (round 7: the last two conjuncts are new — deletion never reorders) -/
 theorem C12_delitem_preserves (o r : Obj) (key : Str) (ho : invObj o = true) (h : delItem o key = .ok r) :
-    invObj r = true ∧ sameHead o r ∧ key ∉ r.hdr.visible := by
+    invObj r = true ∧ sameHead o r ∧ key ∉ r.hdr.visible
+    ∧ r.hdr.visible = o.hdr.visible.erase key ∧ r.kids.keys = o.kids.keys.erase key := by
   have := delItem_inv o r key ((invO_iff o).2 ho) h
-  exact ⟨(invO_iff r).1 this.1, this.2⟩
+  have e := delItem_eq o r key h
+  refine ⟨(invO_iff r).1 this.1, this.2.1, this.2.2, ?_, ?_⟩
+  · rw [e]
+  · rw [e]; exact keys_remove key o.kids
+
+/-- **an edit below a container does not touch its listing**: `container[k][…]… = / del / .data = / .attributes[…] =`
+    (any edit that keeps invariant, name and id of the object it is applied to, at any depth ≥ 1 below the container)
+    leaves the container's own name, id, visible keys, attributes, identity and the order of its `_dict` keys as they
+    were.  Together with `C12_setitem_appends` (append / move to the end) and `C12_delitem_preserves` (erase) this is
+    the complete stepwise account of the order in which a container lists its children: it changes only by an
+    insertion, replacement or deletion made directly on that container. -/
+theorem C12_edit_below_keeps_listing (g : Obj → Except Err Obj)
+    (hg : ∀ o r, invObj o = true → g o = .ok r → invObj r = true ∧ sameHead o r) (k : Str) (ks : List Str)
+    (o r : Obj) (ho : invObj o = true) (h : modifyAt g (k :: ks) o = .ok r) :
+    r.hdr = o.hdr ∧ r.kids.keys = o.kids.keys :=
+  modifyAt_below_listing g (fun o r ho hr => by
+    have := hg o r ((invO_iff o).1 ho) hr
+    exact ⟨(invO_iff r).2 this.1, this.2⟩) k ks o r ((invO_iff o).2 ho) h
 
 /-- **edits at any depth**: an edit of `root[k1][k2]…` that keeps the invariant, name, id and class of the
     object it is applied to keeps the invariant of the whole tree -/
@@ -182,13 +205,44 @@ theorem C12_copy_separate (ops : List Op) (hok : ∀ op ∈ ops, op.scope = true
       ∧ nameId r = nameId src ∧ contentsO r = contentsO src :=
   copy_fresh _ s' hh path (run_good ops State.init good_init (fun op ho => (Op.ok_iff_scope op).2 (hok op ho))) h
 
-/-- **sub-selections do not share structure** -/
+/-- **sub-selections do not share structure, they share data**: in any store reached by a history, a successful
+    `handle[path][(name, …)]` adds one handle; every object reachable from it is new (identity ≥ the allocation
+    counter, hence different from every live object).  When the source is a Structure or a Dataset (round 7, new) the
+    selection has the name and id of its source and — child by child in `_dict` order, hidden children included — the
+    names, classes, attribute values and the very data objects of the source (`contentsO`), and it lists exactly the
+    named children: quoted, each once, in the order of the tuple, all of them keys of its `_dict`.
+    When the source is a Grid (round 7, new) every child stored in the selection is a copy of `grid[k]` for one of
+    the given names `k`: same name, class, attribute values and the very same data object.
+    (Sequence selection replaces the data object by `copy(data[list(keys)])` and derives the children's data from
+    it, as the code does: it does not share; compared by the correspondence, nothing claimed here.) -/
 theorem C12_select_separate (ops : List Op) (hok : ∀ op ∈ ops, op.scope = true) (hh : Nat) (path keys : List Str)
     (s' : State) (h : stepE (run State.init ops) (.select hh path keys) = .ok s') :
-    ∃ r, s'.handles = (run State.init ops).handles ++ [some r]
-      ∧ (∀ x ∈ r.oids, (run State.init ops).next ≤ x ∧ x ∉ (run State.init ops).oids) :=
-  select_fresh_step _ s' hh path keys
+    ∃ o src r, (run State.init ops).get hh = .ok o ∧ navigate path o = .ok src
+      ∧ s'.handles = (run State.init ops).handles ++ [some r]
+      ∧ (∀ x ∈ r.oids, (run State.init ops).next ≤ x ∧ x ∉ (run State.init ops).oids)
+      ∧ (src.hdr.kind = .struct ∨ src.hdr.kind = .dataset →
+          nameId r = nameId src ∧ contentsO r = contentsO src ∧ r.hdr.visible = dedup (keys.map quote)
+          ∧ ∀ k ∈ r.hdr.visible, k ∈ r.kids.keys)
+      ∧ (src.hdr.kind = .grid →
+          ∀ x, x ∈ r.kids.objs → ∃ k ∈ keys, ∃ c, getItem src k = .ok c ∧ contentsO x = contentsO c) :=
+  select_step_shares _ s' hh path keys
     (run_good ops State.init good_init (fun op ho => (Op.ok_iff_scope op).2 (hok op ho))) h
+
+/-- non-vacuity of the Structure/Dataset and Grid clauses of `C12_select_separate`: dataset `d` with `x`, `y`; grid `g`
+    with `a`, `b`; `d["y", "x", "y"]` (handle 6) lists `y`, `x` and has the data objects of `d` (atoms 1, 2; dict order);
+    `g["b",]` (handle 7, identities from 9) holds a copy of `b` with `b`'s data object (atom 4) -/
+def demoSel : List Op :=
+  [.new .dataset [[100]] 0, .new .base [[120]] 1, .set 0 [] [[120]] 1, .new .base [[121]] 2, .set 0 [] [[121]] 2,
+   .new .grid [[103]] 0, .new .base [[97]] 3, .set 3 [] [[97]] 4, .new .base [[98]] 4, .set 3 [] [[98]] 5,
+   .select 0 [] [[[121]], [[120]], [[121]]], .select 3 [] [[[98]]]]
+
+example : ∀ op ∈ demoSel, op.scope = true := by decide
+
+example : ((run State.init demoSel).handles.filterMap id).map (fun o => (o.hdr.oid, o.hdr.visible)) =
+    [(0, [[[120]], [[121]]]), (3, [[[97]], [[98]]]), (6, [[[121]], [[120]]]), (9, [[[98]]])] := by decide
+
+example : ((run State.init demoSel).handles.filterMap id).map (fun o => (contentsO o).map (fun e => e.2.2.2)) =
+    [[.none, .atom 1, .atom 2], [.none, .atom 3, .atom 4], [.none, .atom 1, .atom 2], [.none, .atom 4]] := by decide
 
 /-- **frame over histories**: after any history `ops`, let any further history `later` run (successful or
     failing operations).  A handle `j` that none of the later operations writes through (`Op.touches`: the
@@ -278,6 +332,245 @@ theorem C12_get_var_children (root c : Obj) (cs : List Obj) (hr : invObj root = 
 
 example : (do let ds ← exTree; getVar ds exLeaf.hdr.id).toOption = some exLeaf
     ∧ exLeaf.hdr.id = [[115], [46], [97], [37], [50], [48], [98]] := by decide
+
+/-! ## round 7 (audit): the guard on the inputs, and the clauses of the property composed over histories -/
+
+/-- **the property's name alphabet is inside the scope of the history theorems**: a history all of whose `new`
+    operations use names without the byte of `.` (the excluded path separator) and of `%` (not in the property's
+    alphabet: identifiers, space, brackets, `&`, non-ASCII) satisfies `Op.scope` — names with a passed-through `dap4…`
+    prefix included.  `Op.scope` speaks about the *quoted* name; this restates it on what the client passes in. -/
+theorem C12_scope_of_alphabet (ops : List Op) (h : ∀ op ∈ ops, op.alphabet = true) : ∀ op ∈ ops, op.scope = true :=
+  fun op ho => Op.scope_of_alphabet op (h op ho)
+
+theorem C12_quote_of_alphabet (name : Str) (h : ∀ c ∈ name, (37 : UInt8) ∉ c ∧ (46 : UInt8) ∉ c) :
+    (quote name).contains dot = false ∧ nameEsc (quote name) = true := quote_alphabet_scope name h
+
+/-- **no stored name contains `/`** after any history in scope none of whose `new` names contains the byte of `/`
+    (hidden children included) — this discharges the `/` hypothesis of `C12_lookup_id` / `C12_lookup_relative` from
+    the inputs of the history -/
+theorem C12_no_slash_histories (ops : List Op) (hok : ∀ op ∈ ops, op.scope = true)
+    (hsl : ∀ op ∈ ops, op.slashFree = true) :
+    ∀ o, some o ∈ (run State.init ops).handles → namesO noSlash o = true :=
+  run_noSlash ops (fun op ho => (Op.ok_iff_scope op).2 (hok op ho)) hsl
+
+/-- the guard is needed: `/` is a safe character of `_quote`, a name `a/b` is stored as `a/b` -/
+example : (Op.new .base [[97], [47], [98]] 0).slashFree = false
+    ∧ ((run State.init [.new .base [[97], [47], [98]] 0]).handles.filterMap id).map (namesO noSlash) = [false] := by
+  decide
+
+example : ∀ op ∈ demo2, op.alphabet = true ∧ op.slashFree = true := by decide
+/-- `dap4 x[é&` (raw 8-character prefix) is in the alphabet, hence in scope -/
+example : (Op.new .base [[100], [97], [112], [52], [32], [120], [91], [0xc3, 0xa9], [38]] 0).alphabet = true := by decide
+/-- the guard is needed, and `%` is the reason: a root-level child constructed as `a%2Eb` is given the id `a.b` by
+    `DatasetType.__setitem__` (the `%2E → .` pass), which is not its name — the invariant fails -/
+example : (Op.new .base [[97], [37], [50], [69], [98]] 0).scope = false
+    ∧ ((run State.init [.new .dataset [[100]] 0, .new .base [[97], [37], [50], [69], [98]] 1,
+          .set 0 [] [[97], [37], [50], [69], [98]] 1]).handles.filterMap id).map (fun o => (walkIds o, invObj o))
+      = [([[[100]], [[97], [46], [98]]], false)] := by decide
+
+/-- **`keys()` lists every visible child once** (dict order; for a Sequence the visible keys themselves) -/
+theorem C12_keys_listed_once (o : Obj) (ho : invObj o = true) :
+    (keysOf o).Nodup ∧ ∀ k, k ∈ keysOf o ↔ k ∈ o.hdr.visible := keysOf_once o ((invO_iff o).2 ho)
+
+/-- **`walk(obj)` reaches exactly `Below obj`**: the relation the theorems quantify over ("every variable", "every
+    container") is what the observer `walk()` yields — for every object, no invariant needed -/
+theorem C12_walk_reaches (root : Obj) (id : Str) : id ∈ walkIds root ↔ ∃ v, Below root v ∧ v.hdr.id = id :=
+  walkIds_below root id
+
+/-- **the tree clauses of the property, composed, after every history.**  After any history over the full alphabet
+    {new, set/replace, delete, copy, select-by-tuple, assign data, set attribute} with lookups interleaved anywhere,
+    constructed names from the property's alphabet (`Op.alphabet`; all other arguments arbitrary, failed operations
+    included), for **every live handle** `root` (dataset, detached variable, copy, sub-selection):
+
+    0. `walk(root)` yields exactly the ids of the objects `Below root` (`root` itself or anything reached through
+       listed children, any depth, any classes on the way);
+    1. **every container, at any depth** (`Below root v`) satisfies the invariant; `keys()` has exactly its visible
+       keys, each once; `children()` succeeds on it and yields one child per visible key, in that order,
+       no name twice, each child's name quoted (`quote n = n`) and its id derived from its parent's;
+    2. if `root` is a dataset: every variable `v` reached through listed children (`Chain`, names `ns`) has
+       `v.id = ".".join(ns)` with every `n ∈ ns` a quoted, dot-free name; splitting the id at `.` gives back `ns`;
+       `get_var(root, v.id)` is `v` itself; no `n ∈ ns` contains `/` and `root[v.id]` (direct hit fails, dotted
+       fall-back of `_getitem_string`) is `v` itself — provided no `new` of the history used a name with the byte of
+       `/` (`Op.slashFree`: the other separator the property excludes; the DAP4 path branch of
+       `DatasetType._getitem_string` is not modelled).  That no stored name contains `/` is itself proved over
+       histories (`run_noSlash`, Proofs/TreeNames.lean: names are moved, copied, re-quoted or dropped, never invented).
+
+    This is `C12_invariant_all_histories` + `C12_children_listed_once` + `C12_get_var` + `C12_lookup_id` in one
+    statement, widened from the roots to every object below them and with the guard stated on the inputs. -/
+theorem C12_history_consistent (hs : List HOp) (hok : ∀ op ∈ edits hs, op.alphabet = true)
+    (root : Obj) (hm : some root ∈ (runH State.init hs).handles) :
+    (∀ id, id ∈ walkIds root ↔ ∃ v, Below root v ∧ v.hdr.id = id)
+    ∧ (∀ v, Below root v → invObj v = true
+      ∧ ((keysOf v).Nodup ∧ ∀ k, k ∈ keysOf v ↔ k ∈ v.hdr.visible)
+      ∧ ∃ cs, children v = .ok cs ∧ cs.map (fun c => c.hdr.name) = v.hdr.visible
+        ∧ (cs.map (fun c => c.hdr.name)).Nodup
+        ∧ ∀ c ∈ cs, quote c.hdr.name = c.hdr.name ∧ c.hdr.id = childId v.hdr.kind v.hdr.id c.hdr.name)
+    ∧ (root.hdr.kind = .dataset → ∀ ns v, Chain root ns v →
+        v.hdr.id = List.intercalate [dot] ns ∧ splitOn dot v.hdr.id = ns
+        ∧ (∀ n ∈ ns, quote n = n ∧ n.contains dot = false)
+        ∧ getVar root v.hdr.id = .ok v
+        ∧ ((∀ op ∈ edits hs, op.slashFree = true) →
+            (∀ n ∈ ns, n.contains slash = false) ∧ lookup root v.hdr.id = .ok (.obj v))) := by
+  rw [runH_eq_run] at hm
+  have hgood := run_good (edits hs) State.init good_init
+    (fun op ho => (Op.ok_iff_scope op).2 (Op.scope_of_alphabet op (hok op ho)))
+  obtain ⟨ho, he⟩ := hgood.1 root hm
+  refine ⟨walkIds_below root, ?_, ?_⟩
+  · intro v hv
+    have hiv := hv.invO ho
+    obtain ⟨cs, a, b, _, d, e⟩ := children_once v hiv
+    refine ⟨(invO_iff v).1 hiv, keysOf_once v hiv, cs, a, b, d, fun c hc => ?_⟩
+    have := childOf_facts v c hiv (childOf_of_children v c cs a hc)
+    exact ⟨this.2.2.1, this.2.1⟩
+  · intro hd ns v hc
+    obtain ⟨a, b, c, d, _⟩ := getVar_chain root v ns ((invO_iff root).1 ho) hd hc
+    refine ⟨by rw [c, joinDot_eq_intercalate], b, d, a, fun hsf => ?_⟩
+    have hn := run_noSlash (edits hs)
+      (fun op ho => (Op.ok_iff_scope op).2 (Op.scope_of_alphabet op (hok op ho))) hsf root hm
+    have hsl : ∀ n ∈ ns, n.contains slash = false := fun n hn' => by
+      have := (Chain.names hc hn).1 n hn'
+      simpa [noSlash] using this
+    refine ⟨hsl, ?_⟩
+    rw [c]
+    exact lookup_path (Path.of_chain hc) ho he (fun _ => hsl)
+
+/-- the leaf, the sequence and the dataset of handle 0 in the store `demo2` reaches -/
+def demo2Leaf : Obj :=
+  ⟨⟨2, .base, [[97], [37], [50], [48], [98]], [[115], [113], [46], [97], [37], [50], [48], [98]], [], [],
+    .item (.atom 7) [[97], [37], [50], [48], [98]]⟩, .nil⟩
+def demo2Seq : Obj :=
+  ⟨⟨1, .seq, [[115], [113]], [[115], [113]], [[[97], [37], [50], [48], [98]]], [], .atom 7⟩,
+    .cons demo2Leaf.hdr .nil .nil⟩
+def demo2Root : Obj :=
+  ⟨⟨0, .dataset, [[100], [37], [50], [48]], [[100], [37], [50], [48]], [[[115], [113]]], [], .none⟩,
+    .cons demo2Seq.hdr demo2Seq.kids .nil⟩
+
+/-- non-vacuity of `C12_history_consistent`: in the store `demo2` reaches, handle 0 is a dataset with the chain
+    `sq`, `a%20b` below it (so both parts of the theorem speak about it) -/
+example : some demo2Root ∈ (runH State.init (demo2.map .op)).handles ∧ demo2Root.hdr.kind = .dataset
+    ∧ Chain demo2Root [[[115], [113]], [[97], [37], [50], [48], [98]]] demo2Leaf ∧ Below demo2Root demo2Leaf := by
+  have hr : (runH State.init (demo2.map .op)).handles[0]? = some (some demo2Root) := by decide
+  have c1 : childOf demo2Root demo2Seq := ⟨[[115], [113]], by decide, by decide⟩
+  have c2 : childOf demo2Seq demo2Leaf := ⟨[[97], [37], [50], [48], [98]], by decide, by decide⟩
+  refine ⟨List.mem_of_getElem? hr, rfl, ?_, Below.child (Below.child Below.self c1) c2⟩
+  exact Chain.step (ns := [[[115], [113]]]) (Chain.child c1) (by decide) c2
+
+/-! ## round 7: "in insertion order" over histories -/
+
+/-- **the order of `children()` is determined by the history, as "insertion order" with replacement moving to the end.**
+    Let any history `pre` reach a store in which handle `j` holds the container `o`, and let any further history `later`
+    run (any operations on any handles, failing ones included).  If `j` is still live, the container it holds lists its
+    children (`_visible_keys`, and — inside the scope — `children()` itself) in exactly the order `ghostRun` computes from
+    `later` alone, starting from `o`'s listing: a **successful** `handle_j[key] = item` un-lists `quote key` and lists it
+    last (insertion appends, replacement moves to the end); a successful `del handle_j[key]` un-lists `key`; every other
+    operation — edits deeper in the tree, edits through other handles, copies, selections, data and attribute assignments,
+    anything that raises — leaves the order alone.  The starting listing of a handle is `[]` for `new`
+    (`C12_new_lists_nothing`), the `_dict` order for `copy` (`C12_copy_preserves`: hidden children re-appear, a reordering
+    selection is forgotten) and the deduplicated quoted tuple for a Structure/Dataset selection (`C12_select_separate`):
+    these two are the operations that *reset* the order.  Scope: the root container of a handle; a nested container is
+    covered while it is filled as a root, and stepwise (`C12_setitem_appends`, `C12_delitem_preserves`,
+    `C12_edit_below_keeps_listing`) afterwards. -/
+theorem C12_order_histories (pre later : List Op) (hok : ∀ op ∈ pre, op.scope = true)
+    (hok' : ∀ op ∈ later, op.scope = true) (j : Nat) (o o' : Obj)
+    (h : (run State.init pre).handles[j]? = some (some o))
+    (h' : (run (run State.init pre) later).handles[j]? = some (some o')) :
+    o'.hdr.visible = ghostRun (run State.init pre) later j o.hdr.visible
+    ∧ ∃ cs, children o' = .ok cs
+        ∧ cs.map (fun c => c.hdr.name) = ghostRun (run State.init pre) later j o.hdr.visible := by
+  have hv := run_visible later _ j o o' h h'
+  have hgood := run_good later _ (run_good pre State.init good_init
+    (fun op ho => (Op.ok_iff_scope op).2 (hok op ho))) (fun op ho => (Op.ok_iff_scope op).2 (hok' op ho))
+  obtain ⟨cs, a, b, _⟩ := children_once o' (hgood.1 o' (List.mem_of_getElem? h')).1
+  exact ⟨hv, cs, a, by rw [b, hv]⟩
+
+/-- a freshly constructed variable lists nothing -/
+theorem C12_new_lists_nothing (s s' : State) (k : Kind) (name : Str) (a : Nat) (h : stepE s (.new k name a) = .ok s') :
+    ∃ o, s'.handles = s.handles ++ [some o] ∧ o.hdr.visible = [] := by
+  simp only [stepE] at h; cases h
+  exact ⟨_, rfl, rfl⟩
+
+/-- non-vacuity, and the order is *not* the order of first insertion: insert `x`, insert `y`, a failing insertion (key ≠
+    name), replace `x`, insert `z`, delete `y` — the ghost and the container both list `x`, `z` -/
+def demoOrder : List Op :=
+  [.new .base [[120]] 1, .set 0 [] [[120]] 1, .new .base [[121]] 2, .set 0 [] [[121]] 2,
+   .new .base [[119]] 5, .set 0 [] [[120]] 3,
+   .new .base [[120]] 3, .set 0 [] [[120]] 4, .new .base [[122]] 4, .set 0 [] [[122]] 5, .del 0 [] [[121]]]
+
+example : ghostRun (run State.init [.new .struct [[115]] 0]) (demoOrder.take 8) 0 [] = [[[121]], [[120]]]
+    ∧ ghostRun (run State.init [.new .struct [[115]] 0]) demoOrder 0 [] = [[[120]], [[122]]]
+    ∧ ((run (run State.init [.new .struct [[115]] 0]) demoOrder).handles[0]?.map (Option.map (·.hdr.visible)))
+        = some (some [[[120]], [[122]]]) := by decide
+
+/-! ## round 7: histories the model describes step by step (`outside` is not silently a failed operation)
+
+`step` totalises: a model step answering `outside` (behaviour of the code the model does not describe) leaves the store
+unchanged like a raised exception.  The history theorems above therefore speak about pydap **for histories satisfying
+`noOutside`** — an executable predicate (the driver's `outside` count is its negation: 0 of 1500 generated histories per
+quick run). -/
+
+/-- **every step of a `noOutside` history is a described one**: it succeeds with exactly the store `run` reaches, or it
+    raises a modelled Python exception (`KeyError`/`TypeError`/`IndexError`) and leaves the store as it was -/
+theorem C12_described_histories (a : List Op) (op : Op) (b : List Op) (h : noOutside State.init (a ++ op :: b) = true) :
+    (∃ s', stepE (run State.init a) op = .ok s' ∧ run State.init (a ++ [op]) = s') ∨
+    (∃ e, e ≠ .outside ∧ stepE (run State.init a) op = .error e ∧ run State.init (a ++ [op]) = run State.init a) :=
+  noOutside_steps a State.init op b h
+
+/-- **sufficient conditions, by operation class** (the cheap ones): on a live handle `h` holding `o`, with a path that does
+    not lead through a Base variable (`navOk`; a missing key is a `KeyError`, which is described),
+    `del h[path][key]` and `h[path].attributes[k] = v` are always described; `h[path][key] = handles[src]` is described
+    when `src ≠ h` is live, holds a non-dataset root satisfying the invariant (every root of a history in scope does) and
+    the target is not a dataset.  Not characterised (they can be `outside`; listed in design_notes): a dead or missing
+    handle, `src = h`, a path through a Base variable, insertion into a dataset with a `.` in the key while it lists a
+    Structure/Sequence, a dataset inserted into a Structure, `copy` (re-inserts children through the same `__setitem__`s),
+    tuple selection (Base source, Grid with non-Base children, `grid[()]`, dotted names), `.data =` on a Sequence whose
+    `_set_data` raises half-way. -/
+theorem C12_described_ops (s : State) (h : Nat) (path : List Str) (o : Obj) (hg : s.get h = .ok o)
+    (hn : navOk path o = true) :
+    (∀ key, (Op.del h path key).described s = true) ∧ (∀ k v, (Op.setAttr h path k v).described s = true)
+    ∧ (∀ key src item, h ≠ src → s.get src = .ok item → invObj item = true → item.hdr.kind ≠ .dataset →
+        (∀ c, navigate path o = .ok c → c.hdr.kind ≠ .dataset) → (Op.set h path key src).described s = true) :=
+  ⟨(del_setAttr_described s h path o hg hn).1, (del_setAttr_described s h path o hg hn).2,
+    fun key src item hne hg2 hi hk ht => set_described s h src path key o item hne hg hg2 hn ((invO_iff item).2 hi) hk ht⟩
+
+/-- non-vacuity: the demo histories contain no `outside` step; a history that inserts a handle into itself does -/
+example : noOutside State.init demo2 = true ∧ noOutside State.init demoSel = true
+    ∧ noOutside State.init [.new .struct [[115]] 0, .set 0 [] [[115]] 0] = false := by decide
+
+/-! ## round 7: one mutation on a flat heap of mutable records (the step the tree store leaves out)
+
+The store of the history theorems holds one tree per handle; that this is how a heap of mutable Python objects behaves
+is the standard separation argument.  Here it is made explicit for **one** in-place mutation: `FlatHeap` maps addresses
+to records (fields + the addresses in `_dict`), `reify` is the tree a handle sees (`oid` = address), `mutate` overwrites
+one record in place.  Not done: the refinement of the *recursive* operations (`_set_id`, `__copy__`, `__setitem__`
+moving a subtree) and of whole histories — those remain carried by the `id()`-class correspondence and the oracle's
+snapshots. -/
+
+/-- **`handle1.attributes[k] = v` on the flat heap**: if the trees seen from `r1` and `r2` share no address (the
+    `oids.Nodup` invariant of `C12_invariant_all_histories`), the in-place update of the record at `r1` gives, seen from
+    `r1`, exactly the model's `setAttr`, and the tree seen from `r2` (children, ids, attributes, data) is unchanged; and
+    *any* in-place change of *any* single record reachable from `r1` (`del self._dict[k]`, `_visible_keys.append`, …) is
+    invisible from `r2` -/
+theorem C12_flat_heap_mutation (hp : FlatHeap) (fuel r1 r2 : Nat) (t1 t2 : Obj) (k : Str) (v : AVal)
+    (h1 : reify hp fuel r1 = some t1) (h2 : reify hp fuel r2 = some t2) (hnd : (t1.oids ++ t2.oids).Nodup) :
+    reify (mutate hp r1 (recSetAttr k v)) fuel r1 = some (setAttr t1 k v)
+    ∧ reify (mutate hp r1 (recSetAttr k v)) fuel r2 = some t2
+    ∧ ∀ addr ∈ t1.oids, ∀ f, reify (mutate hp addr f) fuel r2 = some t2 :=
+  heap_setAttr_refines hp fuel r1 r2 t1 t2 k v h1 h2 hnd
+
+/-- a heap with the Structure `s` (address 0) holding `x` (address 1), and a separate `y` (address 2); and — to show that
+    the hypothesis is needed — the same `x` also reachable from a second Structure at address 3 (sharing) -/
+def exHeap : FlatHeap := fun a =>
+  if a = 0 then some ⟨⟨0, .struct, [[115]], [[115]], [[[120]]], [], .none⟩, [1]⟩
+  else if a = 1 then some ⟨⟨1, .base, [[120]], [[115], [46], [120]], [], [], .atom 1⟩, []⟩
+  else if a = 2 then some ⟨⟨2, .base, [[121]], [[121]], [], [], .atom 2⟩, []⟩
+  else if a = 3 then some ⟨⟨3, .struct, [[116]], [[116]], [[[120]]], [], .none⟩, [1]⟩
+  else none
+
+example : (reify exHeap 3 0).map (·.oids) = some [0, 1] ∧ (reify exHeap 3 2).map (·.oids) = some [2]
+    ∧ reify (mutate exHeap 1 (recSetAttr [[117]] (.nat 7))) 3 2 = reify exHeap 3 2
+    ∧ reify (mutate exHeap 1 (recSetAttr [[117]] (.nat 7))) 3 0 ≠ reify exHeap 3 0
+    -- with sharing (address 1 is in both trees) the edit through `s` is seen through `t`
+    ∧ reify (mutate exHeap 1 (recSetAttr [[117]] (.nat 7))) 3 3 ≠ reify exHeap 3 3 := by decide
 
 /-! ## lookups: `obj[key]` with any string — observations that leave the store alone
 
